@@ -50,11 +50,17 @@ class Importer(Party):
         r, c = self.r, self.cfg
         x = r.random()
         if x < 0.5:
-            return {"op": "insert1", "b": self.b, "ev": self.ev()}
+            s = {"op": "insert1", "b": self.b, "ev": self.ev()}
+            if r.random() < c.get("reuse_p", 0.0):
+                s["reuse_obj"] = True
+            return s
         n = bulk_len(r, c.get("bulk_max", 8))
         evs = []
         for _ in range(n):
             y = r.random()
+            if evs and r.random() < c.get("dup_p", 0.0):
+                evs.append({"dup_first": True, "ev": self.ev()})  # "ev" is used when the first item cannot be repeated
+                continue
             if y < c.get("upsert_p", 0.0):
                 evs.append({"upsert": r.randrange(0, 1000), "ev": self.ev()})
             elif y < c.get("upsert_p", 0.0) + c.get("foreign_p", 0.0):
@@ -77,13 +83,18 @@ class Editor(Party):
         fp = c.get("foreign_p", 0.0)
         if x < 0.3:
             s = {"op": "replace", "b": self.b, "ev": self.ev()}
+            if r.random() < c.get("reuse_p", 0.0):
+                s["reuse_obj"] = True
             if r.random() < c.get("foreign_replace_p", fp):
                 s["foreign"] = r.randrange(0, 1000)
             else:
                 s["k"] = r.randrange(0, 1000)
             return s
         if x < 0.6:
-            return {"op": "replace_last", "b": self.b, "ev": self.ev()}
+            s = {"op": "replace_last", "b": self.b, "ev": self.ev()}
+            if r.random() < c.get("reuse_p", 0.0):
+                s["reuse_obj"] = True
+            return s
         s = {"op": "delete", "b": self.b}
         y = r.random()
         fd = c.get("foreign_delete_p", fp)
@@ -155,10 +166,11 @@ class Watcher(Party):
 
     name = "watcher"
 
-    def __init__(self, r, cfg, b, pulse):
+    def __init__(self, r, cfg, b, pulse, unit=None):
         super().__init__(r, cfg)
         self.b = b
         self.pulse = pulse
+        self.unit = unit
         lat = cfg["lat"]
         self.t = gen.lat_ts(r, lat)
         self.end = self.t
@@ -166,7 +178,7 @@ class Watcher(Party):
 
     def step(self):
         r, lat = self.r, self.cfg["lat"]
-        unit = lat["step"]
+        unit = self.unit or lat["step"]
         pulse_us = int(round(self.pulse * 1_000_000))
         if self.first:
             self.first = False
